@@ -23,6 +23,7 @@ const (
 
 var opNames = [...]string{"resolver", "reserr", "conn", "pick", "done", "advance", "cancel", "failnew", "steps", "mutatecfg"}
 
+//go:norace
 func (k OpKind) String() string { return opNames[k] }
 
 // Op is one symbolic plan operation. Selectors are taken modulo the current
@@ -50,10 +51,10 @@ const (
 
 // Conn event selectors (Op.B for OpConn).
 const (
-	ConnProgress = iota // idle->connecting (after Connect), connecting->ready
-	ConnFail            // connecting->TF, ready->idle, TF->idle
-	ConnShutdown        // removed connection reports SHUTDOWN
-	ConnDuplicate       // last report delivered again
+	ConnProgress  = iota // idle->connecting (after Connect), connecting->ready
+	ConnFail             // connecting->TF, ready->idle, TF->idle
+	ConnShutdown         // removed connection reports SHUTDOWN
+	ConnDuplicate        // last report delivered again
 	nConnEv
 )
 
@@ -120,8 +121,10 @@ type Plan struct {
 	Ops        []Op    `json:"ops"`
 }
 
+//go:norace
 func (p *Plan) JSON() string { b, _ := json.Marshal(p); return string(b) }
 
+//go:norace
 func (p *Plan) Clone() *Plan {
 	c := *p
 	c.Ops = make([]Op, len(p.Ops))
@@ -135,11 +138,11 @@ func (p *Plan) Clone() *Plan {
 
 // Profile weights: how often each operation kind is generated.
 type weights struct {
-	op      [nOpKinds]int
-	method  [5]int
-	outcome [nOutcomes]int
-	stale   int // % of picks on a stale picker
-	oddPct  int // % of conn ops that are environment-illegal (only when !Legal)
+	op       [nOpKinds]int
+	method   [5]int
+	outcome  [nOutcomes]int
+	stale    int // % of picks on a stale picker
+	oddPct   int // % of conn ops that are environment-illegal (only when !Legal)
 	connFail int // % of conn ops that are failures rather than progress
 }
 
@@ -266,6 +269,7 @@ var profiles = map[string]func(r *rand.Rand, p *Plan) weights{
 	},
 }
 
+//go:norace
 func baseCfg(r *rand.Rand) CfgSpec {
 	c := CfgSpec{}
 	c.Min = uint32(r.IntN(4)) // 0 = absent
@@ -285,6 +289,7 @@ func baseCfg(r *rand.Rand) CfgSpec {
 	return c
 }
 
+//go:norace
 func pickW(r *rand.Rand, w []int) int {
 	t := 0
 	for _, x := range w {
@@ -304,6 +309,8 @@ func pickW(r *rand.Rand, w []int) int {
 }
 
 // Generate draws a plan for the profile from the PRNG.
+//
+//go:norace
 func Generate(r *rand.Rand, profile string, concurrent bool, av Avoid) *Plan {
 	p := &Plan{Profile: profile, Concurrent: concurrent, Legal: true}
 	w := profiles[profile](r, p)
@@ -437,6 +444,8 @@ func Generate(r *rand.Rand, profile string, concurrent bool, av Avoid) *Plan {
 }
 
 // Simplify returns simpler variants of the plan for the shrinker.
+//
+//go:norace
 func Simplify(p *Plan) []*Plan {
 	var out []*Plan
 	add := func(f func(c *Plan) bool) {
@@ -450,10 +459,18 @@ func Simplify(p *Plan) []*Plan {
 	add(func(c *Plan) bool { ch := c.Cfg.Locator != 0; c.Cfg.Locator = 0; return ch })
 	add(func(c *Plan) bool { ch := c.Cfg.RR; c.Cfg.RR = false; return ch })
 	add(func(c *Plan) bool { ch := c.Cfg.Fallback; c.Cfg.Fallback = false; return ch })
-	add(func(c *Plan) bool { ch := c.Cfg.UCalls != 0 || c.Cfg.UMs != 0; c.Cfg.UCalls, c.Cfg.UMs = 0, 0; return ch })
+	add(func(c *Plan) bool {
+		ch := c.Cfg.UCalls != 0 || c.Cfg.UMs != 0
+		c.Cfg.UCalls, c.Cfg.UMs = 0, 0
+		return ch
+	})
 	add(func(c *Plan) bool { ch := c.Cfg.Min > 1; c.Cfg.Min--; return ch })
 	add(func(c *Plan) bool { ch := c.Cfg.Max > 1; c.Cfg.Max--; return ch })
-	add(func(c *Plan) bool { ch := c.Cfg.NilPool || c.Cfg.NilCfg; c.Cfg.NilPool, c.Cfg.NilCfg = false, false; return ch })
+	add(func(c *Plan) bool {
+		ch := c.Cfg.NilPool || c.Cfg.NilCfg
+		c.Cfg.NilPool, c.Cfg.NilCfg = false, false
+		return ch
+	})
 	add(func(c *Plan) bool { ch := !c.Legal; c.Legal = true; return ch })
 	for i := range p.Ops {
 		i := i
